@@ -22,14 +22,14 @@ LEAN = os.path.join(VERIF, "lean")
 GEN = os.path.join(LEAN, "NfcVerif", "Gen")
 MODULE = "NfcVerif.Props.ExcFlow"          # common part; one module per group below
 MODULES = {"Tags": MODULE + "Tags", "Ndef": MODULE + "Ndef", "Drivers": MODULE + "Drivers", "Clf": MODULE + "Clf",
-           "Llc": MODULE + "Llc"}
+           "Llc": MODULE + "Llc", "Dep": MODULE + "Dep", "Sock": MODULE + "Sock"}
 NS = "NfcVerif.ExcFlowProps."
 
 # proved once for all programs (Lemmas/ExcFlow.lean); audited with every group
 GENERIC = ["NfcVerif.ExcFlow." + t for t in (
     "sub_iff_below", "runs_mem_outs", "mem_outs_runs", "link_sound", "link_exact", "link_at",
     "escapesOnly_of_check", "canEscape_of_check", "escapesOnly_of_checkOnly", "canEscape_of_checkCan",
-    "not_escapesOnly_of_canEscape")] + [NS + "tree_ordered", NS + "world_names", NS + "only_iff_runs", NS + "only_all"]
+    "not_escapesOnly_of_canEscape", "neverEscapes_of_checkNever", "not_neverEscapes_of_canEscape", "checkAll_split")] + [NS + "tree_ordered", NS + "world_names", NS + "only_iff_runs", NS + "only_all"]
 
 GROUPS = {
     "tag_commands": {
@@ -87,6 +87,34 @@ GROUPS = {
         "what": "llc.exchange, run_as_initiator/run_as_target, SNEP and handover server threads: what can end them",
         "theorems": ["llcOnly_ok", "llcCan_ok", "llc_exchange_escapes", "llc_run_escapes", "llc_run_systemexit",
                      "snep_server_threads_escape", "handover_server_threads_escape", "handover_serve_encodeerror"],
+    },
+    "dep": {
+        "module": MODULES["Dep"],
+        "properties": ["C04", "C07"],
+        "what": "nfc/dep.py: Initiator/Target activate, deactivate, exchange with the retry machinery, frame and PDU "
+                "codecs: only CommunicationError subclasses (IOError passes through; UnsupportedTargetError of "
+                "sense/listen; named residual ValueError/AssertionError of argument checks); a TransmissionError never "
+                "leaves Initiator.exchange",
+        "theorems": ["depAll_ok", "depOnly_ok", "depOnlyIO_ok", "depNever_ok", "depCan_ok", "dep_initiator_exchange_escapes",
+                     "dep_initiator_exchange_no_transmission_error", "dep_initiator_exchange_can_fail",
+                     "dep_target_exchange_escapes", "dep_target_exchange_can_fail", "dep_helpers_escape",
+                     "dep_recovery_escapes", "dep_initiator_activate_escapes", "dep_target_activate_escapes",
+                     "dep_activate_can_fail", "dep_deactivate_escapes", "dep_deactivate_inner_raises",
+                     "dep_frame_codec_escapes", "dep_pdu_codec_escapes", "dep_codec_can_fail", "dep_exchange_escapes_io",
+                     "dep_activate_escapes_io"],
+    },
+    "sock": {
+        "module": MODULES["Sock"],
+        "properties": ["C09", "C17", "C05"],
+        "what": "LLCP socket API: every method of nfc.llcp.Socket, the LogicalLinkController socket API, the three "
+                "socket kinds of tco.py, service access points, service discovery, collect/dispatch: only nfc.llcp.Error "
+                "(and ConnectRefused) plus the named residual per method (TypeError/ValueError argument checks, "
+                "UnicodeEncodeError of a non-latin-1 name, NotImplementedError, RuntimeError, AssertionError, "
+                "IndexError of resolve); the IndexError of the wake-up after close() never leaves a call",
+        "theorems": ["sockAll_ok", "sockOnly_ok", "sockNever_ok", "sockCan_ok", "socket_api_escapes", "socket_class_escapes",
+                     "socket_api_error_only", "socket_kinds_escape", "socket_wakeup_indexerror_mapped",
+                     "socket_recv_raises_indexerror", "sap_shutdown_never_raises", "socket_api_residual",
+                     "llc_collect_dispatch_escape", "llc_collect_dispatch_pdu_error"],
     },
 }
 for _d in GROUPS.values():                       # fully qualified, as `Check.lean` wants them
@@ -168,22 +196,23 @@ def main : IO Unit := do
 
 
 def parse_specs(lean_dir=None):
-    """the spec lists of Props/ExcFlow.lean: {list name: [(function ident, [class idents])]} (Only lists) and
-    {list name: [(function ident, class ident)]} (Can lists)"""
+    """the spec lists of Props/ExcFlow*.lean: {list name: [(function ident, [class idents])]} (Only lists, and Never lists:
+    name ends with `Never`) and {list name: [(function ident, class ident)]} (Can lists)"""
     text = "\n".join(open(f).read() for f in props_files(lean_dir))
     only, can = {}, {}
-    for m in re.finditer(r"def (\w+) : List \(Site × List Cls\) := \[\n(.*?)\]\n(?:theorem|def)", text, re.S):
+    # a list: the header line, then the item lines (indented), the last one closing the bracket
+    for m in re.finditer(r"def (\w+) : List \(Site × List Cls\) := \[\n((?:[ \t]+[^\n]*\n)+)", text):
         if m.group(1) == "tableIO" or m.group(1).startswith("tbl"):
             continue
         only[m.group(1)] = [(f, [c.strip()[4:] for c in cs.split(",") if c.strip()])
                             for f, cs in re.findall(r"\(Site\.(\w+), \[([^\]]*)\]\)", m.group(2))]
-    for m in re.finditer(r"def (\w+) : List \(Site × Cls\) := \[\n(.*?)\]\n(?:theorem|def)", text, re.S):
+    for m in re.finditer(r"def (\w+) : List \(Site × Cls\) := \[\n((?:[ \t]+[^\n]*\n)+)", text):
         can[m.group(1)] = re.findall(r"\(Site\.(\w+), Cls\.(\w+)\)", m.group(2))
     return only, can
 
 
 def diagnose(tr=None, repo=None, lean_dir=None):
-    """which statements of Props/ExcFlow.lean fail on the current Gen files, and why (list of strings).
+    """which statements of Props/ExcFlow*.lean fail on the current Gen files, and why (list of strings).
     Independent of the Lean proof: used to explain a broken obligation and by the self-test."""
     if tr is None:
         tr = regenerate(repo or os.environ.get("NFCPY_REPO", "/repo"))
@@ -201,6 +230,7 @@ def diagnose(tr=None, repo=None, lean_dir=None):
     for lst, specs in sorted(only.items()):
         if lst.endswith("IO"):
             continue            # evaluated with another table; not diagnosed here
+        never = lst.endswith("Never")
         for f, allowed in specs:
             fid = fident.get(f)
             if fid is None or fid not in summ:
@@ -209,6 +239,12 @@ def diagnose(tr=None, repo=None, lean_dir=None):
             missing = [a for a in allowed if a not in ident]
             if missing:
                 out.append("%s: %s names unknown classes %s" % (lst, f, missing))
+                continue
+            if never:
+                bad = [c for c in summ[fid] if any(below(c, ident[a]) for a in allowed)]
+                if bad:
+                    out.append("%s|%s: %s can now leave %s (stated: never %s)" % (
+                        lst, f, ", ".join(sorted(set(bad))), fid, ", ".join(ident[a] for a in allowed)))
                 continue
             bad = [c for c in summ[fid] if not any(below(c, ident[a]) for a in allowed)]
             if bad:
@@ -239,7 +275,8 @@ def broken_theorems(diag, lean_dir=None):
     for m in re.finditer(r"theorem (\w+)\b(.*?):=", text, re.S):
         stmt = m.group(2)
         for lst, f in hits:
-            kind_ok = ("Can " in stmt) if lst.endswith("Can") else ("Only" in stmt)
+            kind_ok = ("Can " in stmt) if lst.endswith("Can") else ("NeverEscapes" in stmt) if lst.endswith("Never") \
+                else ("Only" in stmt)
             direct = kind_ok and re.search(r"\bSite\.%s\b" % re.escape(f), stmt)
             via_list = re.search(r"∈ %s\b" % re.escape(lst), stmt)
             if (direct or via_list) and m.group(1) not in names:
